@@ -531,7 +531,10 @@ var infraWatcherTable = []struct {
 }{
 	{pkgMastershipCtl, "TopoWatcher", []string{
 		"controller.NewID(store/v2/configuration.NewID(config/v2.TargetID(⟨{^w.topo}store/topo.Store.Get(recv(^eventCh).Object.Obj.(*topo.Object_Relation).Relation.TgtEntityID)⟩.ID),config/v2.TargetType(&topo.Configurable{}@k.Type),config/v2.TargetVersion(&topo.Configurable{}@k.Version)))",
-		"controller.NewID(store/v2/configuration.NewID(config/v2.TargetID(recv(^eventCh).Object.ID),config/v2.TargetType(&topo.Configurable{}@k.Type),config/v2.TargetVersion(&topo.Configurable{}@k.Version)))"}, nil},
+		"controller.NewID(store/v2/configuration.NewID(config/v2.TargetID(recv(^eventCh).Object.ID),config/v2.TargetType(&topo.Configurable{}@k.Type),config/v2.TargetVersion(&topo.Configurable{}@k.Version)))",
+		// every configuration of the relation's target, whatever type/version it was made under (F54)
+		"controller.NewID(elem(⟨{^w.configurations}store/v2/configuration.Store.List()⟩).ID)"},
+		[][]string{nil, nil, {").TargetID"}}},
 	{pkgConnectionCtl, "ConnWatcher", []string{"controller.NewID({recv(^c.connCh)}southbound/gnmi.Conn.ID())"}, nil},
 	{pkgConnectionCtl, "TopoWatcher", []string{"controller.NewID(southbound/gnmi.ConnID(recv(^eventCh).Object.ID))"},
 		[][]string{{".Relation.KindID == topo.CONTROLS", ".Relation.SrcEntityID"}}},
@@ -567,8 +570,32 @@ func infraWatcherMaps(c *engine.Ctx) {
 			}
 		}
 		o.Site(w.pkg + "." + w.recv)
+		if w.pkg == pkgMastershipCtl && w.recv == "TopoWatcher" {
+			// a relation whose source entity is already gone (a dead instance) still wakes the reconciler (F55)
+			o.Eval(1)
+			survives := false
+			for _, p := range paths {
+				if p.Lit == nil || !strings.HasSuffix(p.Root.Name(), "."+w.recv+".Start") {
+					continue
+				}
+				gone := -1
+				for i := range p.Events {
+					e := &p.Events[i]
+					if e.Kind == engine.EvCond && strings.HasPrefix(e.Lit.L, "errors.IsNotFound(") && strings.Contains(c.P.Render(e.Lit.L, nil), ".Relation.SrcEntityID") && e.Lit.R == "true" && e.Lit.Mask == 2 {
+						gone = i
+					}
+					if gone >= 0 && e.Kind == engine.EvSend && e.Chan == "^ch" {
+						survives = true
+					}
+				}
+			}
+			if !survives {
+				o.Fail(&engine.Violation{Key: w.pkg + "." + w.recv + "|a relation whose source is gone is dropped", Pos: w.pkg, Func: w.recv + ".Start",
+					Msg: "no path on which the relation's source entity is not found goes on to enqueue the target's configuration: the removal of a dead instance's master relation does not wake the mastership reconciler"})
+			}
+		}
 		matched := map[string]bool{}
-		for _, want := range w.sends {
+		for wi, want := range w.sends {
 			o.Eval(1)
 			parts := strings.Split(want, "|")
 			found := ""
@@ -593,7 +620,10 @@ func infraWatcherMaps(c *engine.Ctx) {
 				continue
 			}
 			matched[found] = true
-			for _, conds := range w.under {
+			for ci, conds := range w.under {
+				if len(w.under) == len(w.sends) && len(w.sends) > 1 && ci != wi {
+					continue // one condition list per send
+				}
 				p, i := got[found], gotIdx[found]
 				for _, need := range conds {
 					ok := false
